@@ -102,7 +102,7 @@ static int fill_listener (int l) {
 typedef struct { char op[16]; int h, a, b, c; char sarg[24]; } Cmd;
 static pthread_mutex_t emx = PTHREAD_MUTEX_INITIALIZER; static __thread int is_bg;
 static void run_cmd (const Cmd *cm) {
-	int h = cm->h, ok = 0, cloexec = -1, dataok = 1, from = 0, id = 0, osconn = -1; long res = 0, off = 0; PError *err = NULL; double t0; int code = 0, ms;
+	int h = cm->h, ok = 0, cloexec = -1, dataok = 1, from = 0, id = 0, osconn = -1, kka = -1; long res = 0, off = 0; PError *err = NULL; double t0; int code = 0, ms;
 	const char *op = cm->op;
 	pthread_mutex_lock (&emx);
 	VT ("{\"e\":\"scall\",\"h\":%d,\"op\":\"%s\",\"a\":%d,\"b\":%d,\"c\":%d,\"s\":\"%s\",\"bg\":%d}", h, op, cm->a, cm->b, cm->c, cm->sarg, is_bg); VT_END ();
@@ -143,7 +143,8 @@ static void run_cmd (const Cmd *cm) {
 		ok = p_socket_connect (sk[h], a, &err); p_socket_address_free (a);
 	} else if (!strcmp (op, "accept")) {
 		sk[h] = p_socket_accept (sk[cm->a], &err); ok = sk[h] != NULL;
-		if (ok) { int fl = fcntl (p_socket_get_fd (sk[h]), F_GETFD); PSocketAddress *ra; cloexec = (fl != -1 && (fl & FD_CLOEXEC)) ? 1 : 0; sfam[h] = sfam[cm->a]; tx_off[h] = rx_off[h] = 0; sport[h] = -1;
+		if (ok) { int fl = fcntl (p_socket_get_fd (sk[h]), F_GETFD); PSocketAddress *ra; cloexec = (fl != -1 && (fl & FD_CLOEXEC)) ? 1 : 0; sfam[h] = sfam[cm->a];
+			  { int v = 0; socklen_t vl = sizeof v; in_api = 0; if (__real_getsockopt (p_socket_get_fd (sk[h]), SOL_SOCKET, SO_KEEPALIVE, &v, &vl) == 0) kka = v ? 1 : 0; }      /* what the OS gave the new descriptor (it may inherit the listener's option) */ tx_off[h] = rx_off[h] = 0; sport[h] = -1;
 			  if ((ra = p_socket_get_remote_address (sk[h], NULL)) != NULL) { pchar *as = p_socket_address_get_address (ra); { int tries; from = 0;
 				    /* (an acceptor parked in the background can be served while the connecting call of the foreground thread is still on its way back: the port
 				     * of the connecting socket is recorded by that thread right after its call - give it a moment) */
@@ -206,8 +207,8 @@ static void run_cmd (const Cmd *cm) {
 	in_api = 0;
 	if (err) { code = p_error_get_code (err); p_error_free (err); }
 	pthread_mutex_lock (&emx);
-	VT ("{\"e\":\"sret\",\"h\":%d,\"op\":\"%s\",\"ok\":%d,\"res\":%ld,\"err\":%d,\"off\":%ld,\"dataok\":%d,\"from\":%d,\"id\":%d,\"cloexec\":%d,\"ms\":%d,\"nsys\":%d,\"npoll\":%d,\"pto\":%d,\"osconn\":%d,\"bg\":%d,\"sys\":\"%s\",",
-	    h, op, ok, res, code, off, dataok, from, id, cloexec, ms, nsys, npoll, last_poll_timeout, osconn, is_bg, syslog_);
+	VT ("{\"e\":\"sret\",\"h\":%d,\"op\":\"%s\",\"ok\":%d,\"res\":%ld,\"err\":%d,\"off\":%ld,\"dataok\":%d,\"from\":%d,\"id\":%d,\"cloexec\":%d,\"ms\":%d,\"nsys\":%d,\"npoll\":%d,\"pto\":%d,\"osconn\":%d,\"kka\":%d,\"bg\":%d,\"sys\":\"%s\",",
+	    h, op, ok, res, code, off, dataok, from, id, cloexec, ms, nsys, npoll, last_poll_timeout, osconn, kka, is_bg, syslog_);
 	getters (h); VT ("}"); VT_END ();
 	pthread_mutex_unlock (&emx);
 }
